@@ -9,6 +9,7 @@ import concurrent.futures
 import json
 import os
 import random
+import shutil
 
 import vlib
 
@@ -49,11 +50,39 @@ def render_line(line):
         return "#" + k
     if k == "text":
         return BC_TEXT.get(line["join"], BS_NL).join(spell(s) for s in line["segs"])
+    if k == "include":
+        return '#include "%s"' % line["name"]
     raise vlib.MachineryError("line kind " + k)
 
 
 def render(src):
     return "\n".join(render_line(l) for l in src)
+
+
+def files_of(src, acc=None):
+    """the included files of a source (tree of include lines) as {name: text}; one content per name"""
+    acc = {} if acc is None else acc
+    for l in src:
+        if l["k"] == "include" and not l["back"]:
+            t = render(l["sub"])
+            if acc.setdefault(l["name"], t) != t:
+                raise vlib.MachineryError("two contents for include file " + l["name"])
+            files_of(l["sub"], acc)
+    return acc
+
+
+def include(tag, name, sub, back=False):
+    return {"k": "include", "tag": tag, "rich": False, "name": name, "sub": sub, "back": back}
+
+
+def headers():
+    """a small tree of header files: a guarded common header, an unguarded one, two headers that both
+    include the common one (diamond)"""
+    common = include("include", "common.hpp", [cond("ifndef", "M2"), defobj("def-obj", "M2", [Id("7")]), cond("endif")])
+    plain = include("include-unguarded", "plain.hpp", [defobj("def-obj", "M1", [Id("5")]), text("use-obj", False, [Id("a"), WS, Id("M1"), WS, Id("b")])])
+    a = include("include-nested", "a.hpp", [common, text("use-obj", False, [Id("a"), WS, Id("M2")])])
+    b = include("include-nested", "b.hpp", [common, plain, text("use-obj-punct", False, [P("["), Id("M1"), P(","), Id("M2"), P("]"), P(";")])])
+    return {"common": common, "plain": plain, "a": a, "b": b}
 
 
 def defobj(tag, name, body):
@@ -196,6 +225,8 @@ def random_sources(rng, n, nlines):
     for _ in range(n):
         src = []
         stack = []          # per open conditional: elsed?
+        with_inc = rng.random() < 0.2      # this source includes header files, some of them repeatedly
+        hdr = list(headers().values())
         strfy = False       # a stringifying macro may be defined (conservative: set on definition, cleared never)
         for q in range(nlines):
             left = nlines - q
@@ -225,6 +256,8 @@ def random_sources(rng, n, nlines):
             elif ch < 0.64 and stack:
                 stack.pop()
                 src.append(cond("endif"))
+            elif with_inc and ch < 0.76:
+                src.append(rng.choice(hdr))
             else:
                 src.append(rand_text(rng, strfy))
         while stack:
@@ -239,7 +272,17 @@ def probes():
     them would otherwise dominate the enumeration): one case each"""
     d_m1 = defobj("def-obj", "M1", [Id("5")])
     d_f = deffn("def-fn1", "F", ["x"], [Id("x"), WS, P("+"), WS, Id("1")])
+    h = headers()
+    use = text("use-obj-punct", False, [P("["), Id("M1"), P(","), Id("M2"), P("]"), P(";")])
+    selfinc = include("include-cycle", "self.hpp", [text("plain", False, [Id("x"), P(";")]), include("include-cycle", "self.hpp", [], True)])
+    c1 = include("include-cycle", "c1.hpp", [include("include-cycle", "c2.hpp", [include("include-cycle", "c1.hpp", [], True)])])
     return [
+        [h["a"], h["b"], use],                                            # diamond: a.hpp and b.hpp both include common.hpp
+        [h["plain"], h["plain"], use],                                    # the same unguarded file twice
+        [h["common"], h["common"], h["a"], use],
+        [cond("ifdef", "M1"), h["plain"], cond("endif"), h["plain"], h["b"]],   # skipped once, then obeyed
+        [selfinc, use],                                                   # genuine cycles: must be refused
+        [c1],
         [d_m1, text("use-obj-before-string", False, [Id("M1"), Str("s")])],
         [d_f, text("fn-name-bare-in-arg", False, call("F", [[Id("F")]]))],
         [d_m1, d_f, text("fn-name-bare-in-arg-front", True, call("F", [[Id("F"), WS, Id("M1")]]))],
@@ -279,6 +322,16 @@ def drive_and_validate(cases, wdir, tag, chunks=None, batch=36000):
     want = {c["id"] for c in cases[:2] + cases[len(cases) // 2:len(cases) // 2 + 3] + cases[-5:-3]} if len(cases) > 1 else {c["id"] for c in cases}
     for b0 in range(0, len(cases), batch):
         part = cases[b0:b0 + batch]
+        root = os.path.join(wdir, "files.%s.%d" % (tag, b0))
+        for c in part:                       # cases with #include: the files are materialised in a directory of their own
+            c.setdefault("files", [])
+            c.pop("root", None)
+            if c["files"]:
+                c["root"] = os.path.join(root, c["id"])
+                os.makedirs(c["root"], exist_ok=True)
+                for f in c["files"] + [{"name": c["file"], "text": c["text"]}]:
+                    with open(os.path.join(c["root"], f["name"]), "w", newline="") as fh:
+                        fh.write(f["text"])
         events = vlib.run_driver("pp", part, wdir, kind="rel", timeout_s=5, tag="%s.%d" % (tag, b0))
         by = vlib.events_by_case(events)
         execs = [(c["id"], [e for e in by.get(c["id"], []) if e["e"] in ("Obs", "Crash")]) for c in part]
@@ -294,6 +347,7 @@ def drive_and_validate(cases, wdir, tag, chunks=None, batch=36000):
         totals["lines"] += t["lines"]
         totals["ops"] += t["ops"]
         totals["execs"] += len(execs)
+        shutil.rmtree(root, ignore_errors=True)
         for f in os.listdir(wdir):
             if f.startswith(tag + ".") and (f.endswith(".ndjson") or f.endswith(".stderr")):
                 os.remove(os.path.join(wdir, f))
@@ -314,8 +368,12 @@ def run(rep, tier, seed, replay):
         "a function-like macro name without '(' directly behind it is left alone",
         "not generated (statement and golden files are silent): stringification of arguments containing macros/strings/blanks, white space "
         "around '##', calls directly followed by a word character, comments glued to words, backslash-newline inside strings, CRLF, "
-        "single-quoted strings, #include (needs the C16 scratch tree), built-in macros (__LINE__/__FILE__: C14), "
+        "single-quoted strings, built-in macros (__LINE__/__FILE__: C14), "
         "self-referential / mutually recursive macros (C10)",
+        "#include: a small tree of header files per case (guarded/unguarded, nested, the same file several times, diamond, genuine cycles), "
+        "materialised in a scratch directory mapped to the virtual root like the CLI does; `#line` marker lines and empty lines around "
+        "included text are not compared (C14); a file may be included any number of times, only the #include of a file that is being "
+        "expanded is a cycle and must be refused",
         "PassThrough is asserted byte for byte (output after the '#line 0' marker line = input) for sources without directive, macro name, comment and continuation",
         "conditionals nested at most 2 deep, 4 macro names (M1, M2 object-like; F(x), G(x,y) function-like; H() in the full profile)",
         "TLC 1.8 / Json+IOUtils community modules; driver projection harness/cmd_pp.cpp (own lexer)",
@@ -368,10 +426,12 @@ def run(rep, tier, seed, replay):
             txt = render(s)
             if t is not None and t != txt:
                 raise vlib.MachineryError("python rendering differs from Render of Preproc.tla: %r vs %r" % (txt, t))
-            if txt in seen:
+            files = [{"name": n, "text": x} for n, x in sorted(files_of(s).items())]
+            key = txt if not files else txt + json.dumps(files)
+            if key in seen:
                 continue
-            seen.add(txt)
-            cases.append({"id": cid, "text": txt, "file": "case.sqf", "src": s})
+            seen.add(key)
+            cases.append({"id": cid, "text": txt, "file": "case.sqf", "src": s, "files": files})
     rep.evaluations = len(cases)
     rep.rule = ("every well-formed source (conditionals balanced) of the bounded line alphabets of Preproc_MC (profiles core/full/cond) "
                 "plus seeded random deeper sources (8-14 lines, calls nested to depth 3) and hand-picked probes; distinct by source text; "
